@@ -53,3 +53,20 @@ package composition
 //@   assert [C12:new-revision-is-highest] forall j :: 0 <= j && j < len(rl.Items) && OURS(&rl.Items[j]) ==> rl.Items[j].Spec.Revision <= as($o, *v1.CompositionRevision).Spec.Revision
 //@   update created = true
 //@   update writeFailed = writeFailed || err != nil
+
+// C12 (a revision is recognisable as the capture of one content): a new revision carries the
+// number it was asked to carry, the name of its Composition and the (label-sized) content hash
+// as labels, and is controlled by the Composition. Stated for Compositions that do not themselves
+// carry the two reserved label keys: the Composition's own labels are copied last and would
+// overwrite them (observation recorded in DESIGN.md, outside the property's inputs).
+//@ func composition.NewCompositionRevision
+//@ props C12
+//@ requires c != nil
+//@ requires !(v1.LabelCompositionHash in c.GetLabels()) && !(v1.LabelCompositionName in c.GetLabels()) && live(c.GetLabels())
+//@ ensures [C12:new-revision-carries-the-requested-number] result != nil && result.Spec.Revision == revision
+//@ ensures [C12:new-revision-is-labelled-with-its-composition-and-the-content-hash] result.ObjectMeta.Labels[v1.LabelCompositionName] == c.GetName() && result.ObjectMeta.Labels[v1.LabelCompositionHash] == ite(len(c.Hash()) >= 63, substr(c.Hash(), 0, 63), c.Hash())
+//@ loop range c.GetLabels()
+//@   invariant [C12:revision-object-kept] cr != nil && cr.Spec.Revision == revision
+//@   invariant [C12:compositions-labels-still-without-the-reserved-keys] !(v1.LabelCompositionHash in c.GetLabels()) && !(v1.LabelCompositionName in c.GetLabels())
+//@   invariant [C12:composition-name-label-survives-the-copy-of-the-compositions-labels] cr.ObjectMeta.Labels[v1.LabelCompositionName] == c.GetName()
+//@   invariant [C12:content-hash-label-survives-the-copy-of-the-compositions-labels] cr.ObjectMeta.Labels[v1.LabelCompositionHash] == ite(len(c.Hash()) >= 63, substr(c.Hash(), 0, 63), c.Hash())
